@@ -501,7 +501,7 @@ POOLS = [["15", "16", "17", "18", "45", "3"], ["1", "2", "3", "4", "5", "6"], ["
 def run(ctx, res):
     rng = ctx.rng
     V = VIS()
-    n_groups = ctx.n(95, 1500)
+    n_groups = ctx.n(150, 1500)
     stats = {"n_candidates": {}, "styles": {}, "unpruned": 0, "fully_pruned": 0, "pruned_nodes_checked": 0, "orders_enumerated": 0,
              "parse_cases": 0, "parse_exceptions": 0, "trees_from_parsed_assertions": 0, "c_in_S_calls": 0}
     tcases, pcases = [], []
@@ -540,6 +540,15 @@ def run(ctx, res):
                 S = list((set(x for x, _ in nonw) | {w}) - {c2})
                 tcases.append({"c": c2, "S": S, "WO": list(WO), "IRV": list(IRV), "style": "parsed", "ncand": len(S) + 1})
                 stats["trees_from_parsed_assertions"] += 1
+    # small domain enumerated completely: 3 candidates, every set of <= 2 assertions out of all 6 NEB pairs and all 12 NEN
+    # (candidate, subset of the others) tuples
+    ids3 = ["1", "2", "3"]
+    univ = [("neb", (l, w, True)) for l in ids3 for w in ids3 if l != w] + \
+           [("nen", (x, set(E), False)) for x in ids3 for k2 in range(3) for E in itertools.combinations([y for y in ids3 if y != x], k2)]
+    for r in (0, 1, 2):
+        for combo in itertools.combinations(univ, r):
+            tcases.append({"c": "1", "S": ["2", "3"], "WO": [a for t, a in combo if t == "neb"], "IRV": [a for t, a in combo if t == "nen"],
+                           "style": "exhaustive3", "ncand": 3})
     for k in tcases:
         k["impl"] = run_tree(V, k["c"], k["S"], k["WO"], k["IRV"])
         stats["n_candidates"][k["ncand"]] = stats["n_candidates"].get(k["ncand"], 0) + 1
@@ -559,7 +568,7 @@ def run(ctx, res):
     cr2 = C.run_corr(ctx.pid, "parse", IMPORTS, "parse_case", pcases, parse_case_lit, "agree_parse", shard=120, show="show_parse")
     res.corr.append(("parseAssertions (RLA-log and RAIRE dialects) vs IrvVis.parse_assertions", cr2, parse_case_json))
     res.evaluations += len(tcases) + len(pcases)
-    res.rule = ("groups of 3-6 consecutive calls over one candidate-id set (2-6 candidates) with different assertion sets: sufficient sets "
+    res.rule = ("3 candidates: every set of <= 2 assertions out of all 18 possible tuples; then groups of 3-6 consecutive calls over one candidate-id set (2-6 candidates) with different assertion sets: sufficient sets "
                 "built by brute force on the meaning of the assertions, the same minus one assertion, with duplicated tuples (same / flipped "
                 "proved flag), random, mutually inconsistent, NEN with empty eliminated set, assertions naming the alternative winner, "
                 "foreign candidate ids, none; trees also built from parseAssertions output; parse files in both dialects (assertion_json "
